@@ -2,6 +2,7 @@
 # usage: tools/seedcheck.sh <seed-worktree> <PROP> [more props...]
 # Confirms an independently seeded change (patch applies to a clean tree at /repo HEAD, compiles, the package tests pass, the
 # demonstration fails with it and passes without it), runs our quick check(s) against it, and files it under /verif/seeded/.
+GO=go1.26; export GOFLAGS=-mod=mod GOPROXY=off GOSUMDB=off GOTOOLCHAIN=local
 SEED="$1"; shift
 ID=$(basename "$SEED")
 OUT=/verif/seeded/$ID
@@ -15,12 +16,12 @@ DEMO_DIR=$(grep -o '"demo_cmd"[^,]*' "$OUT/meta.json" | grep -o '\./[a-z/]*' | h
 DEMO_RUN=$(grep -o "\-run '[^']*'" "$OUT/meta.json" | head -1 | sed "s/-run '//; s/'//")
 [ -z "$DEMO_RUN" ] && DEMO_RUN=$(grep -o '\-run [A-Za-z0-9_|^$]*' "$OUT/meta.json" | head -1 | sed 's/-run //')
 cp "$OUT/demo_test.go" "$WT/$DEMO_DIR/seed_demo_test.go"
-echo "== demo WITHOUT the change (must pass)"; (cd "$WT" && go test -count=1 -run "$DEMO_RUN" "$DEMO_DIR" 2>&1 | tail -2)
+echo "== demo WITHOUT the change (must pass)"; (cd "$WT" && $GO test -count=1 -run "$DEMO_RUN" "$DEMO_DIR" 2>&1 | tail -2)
 (cd "$WT" && git apply "$OUT/patch.diff") || { echo "PATCH DOES NOT APPLY"; exit 3; }
-echo "== build"; (cd "$WT" && go build ./... && echo ok)
-echo "== demo WITH the change (must fail)"; (cd "$WT" && go test -count=1 -run "$DEMO_RUN" "$DEMO_DIR" 2>&1 | tail -2)
+echo "== build"; (cd "$WT" && $GO build ./... && echo ok)
+echo "== demo WITH the change (must fail)"; (cd "$WT" && $GO test -count=1 -run "$DEMO_RUN" "$DEMO_DIR" 2>&1 | tail -2)
 rm -f "$WT/$DEMO_DIR/seed_demo_test.go"
-echo "== suite with the change"; (cd "$WT" && go test -count=1 ./... 2>&1 | grep -E "^(FAIL|--- FAIL)" | head -5; echo "suite done")
+echo "== suite with the change"; (cd "$WT" && $GO test -count=1 ./... 2>&1 | grep -E "^(FAIL|--- FAIL)" | head -5; echo "suite done")
 for P in "$@"; do
   echo "== our check $P against the change"
   (cd /verif && VERIF_REPO="$WT" ./check "$P" 2>&1 | grep -E "VIOLATION|tier=|INCONCLUSIVE|KNOWN" | head -4)
